@@ -120,6 +120,25 @@ CHECKS["C10"] = dict(
          "at the table level; equality of body values is C06/C08.",
     note=TRUST + S3NOTE, technique="static analysis: AST decompilation of client response arms + typestate + cross-check with server writer rows", design="§4 C10")
 
+CHECKS["C06"] = dict(
+    text="Round-trip VALUE equality quantifies over runtime values and is not decided. Decided for every generated object codec, for all values: (1) JSON separator typestate of the hand-rolled "
+         "writer (members via writeProperty, embedded allOf members via the member type's own writer: where they may stand and when the separator advances); (2) key quoting (JSON-safe "
+         "constants / runtime keys through a JSON quoting function); (3) writer/reader key-table agreement (same keys on the same struct fields, required/optional, IsSet, null, embedded order, "
+         "additionalProperties). These are necessary conditions of the property: breaking any of them yields invalid JSON or a value that does not survive the round trip.",
+    note=TRUST + S3NOTE + " Everything delegated to encoding/json (scalar rendering, RawMessage) is trusted.",
+    technique="static analysis: abstract interpretation (separator typestate) of generated encoders + reader/writer table agreement", design="§4 C06")
+CHECKS["C07"] = dict(
+    text="Schema-to-type walk from every JSON body site (response Write -> writeJSON(r.Body), parser -> Decode(&params.Body)) and component schema: at each position the generated writer key table "
+         "and Go type are compared with the schema from the independent oracle (exact key spelling, required <=> unconditional, optional <=> Maybe guard, null <=> nullable, base type per "
+         "type/format, nil-slice normalisation, allOf merge into one object, additionalProperties). Table level for all values; scalar value formats belong to encoding/json.",
+    note=TRUST + S3NOTE, technique="static analysis: type/schema structural walk + writer key-table comparison with spec oracle", design="§4 C07")
+CHECKS["C08"] = dict(
+    text="Losslessness on all valid documents is a value-level clause and is not decided. Decided at every schema position: reader key table vs schema (every declared key looked up; required <=> "
+         "missing-key error naming it; null handling; leftovers collected <=> additionalProperties, each into a fresh variable; embedded members), strict error discipline inside each key block "
+         "(every decode error returned with the key named, decode reads this key's raw value), oneOf discriminator switch = schema mapping (explicit + implicit) with error default / one probe "
+         "per variant, and JSON request bodies decoded into params.Body with the error returned.",
+    note=TRUST + S3NOTE, technique="static analysis: AST decompilation of generated decoders + table comparison with spec oracle", design="§4 C08")
+
 NA_REASON = {}
 DEFAULT_NA = "not claimed yet: static checker for this property is still under construction (design in DESIGN.md §4)"
 
